@@ -364,6 +364,8 @@ func (stub *stub) Start(ctx context.Context) (retErr error) {
 		if retErr != nil {
 			rpcm.Close()
 			stub.rpcm = nil
+			// the connection is closed along with the multiplexer: connect anew on the next Start()
+			stub.conn = nil
 		}
 	}()
 
